@@ -95,7 +95,7 @@ package fastforward
 
 // The executable built by QuickConfigureExec (C14) runs exchange on the upstream list it captured
 // (the tag lookup that builds the list is not under contract).
-//@ func (f *Forward) QuickConfigureExec$1 [C14]
+//@ func (f *Forward) QuickConfigureExec$execFunc [C14]
 //@   requires f != nil && ctx != nil && qCtx != nil && qCtx.query != nil && len(qCtx.query.Question) >= 1
 //@   requires forall k int :: 0 <= k && k < len(us) ==> us[k] != nil
 //@   modifies *
